@@ -250,3 +250,13 @@ Example C02_source_tie_nonvacuous :
   KernelsHllAdd.gen_hll_add (2^20 + 5) 7 128 60 = (5, 60) /\ KernelsHllAdd.gen_hll_add (2^64 - 1) 16 65536 0 = (65535, 1) /\
   KernelsHllAdd.gen_hll_merge_cell 3 9 = 9 /\ KernelsHllAdd.gen_hll_merge_cell 9 3 = 9.
 Proof. vm_compute. repeat split; reflexivity. Qed.
+
+(* ---------------- source tie (class-level add wrapper) ----------------
+   HyperLogLog.add as regenerated from the source AST on this run (generated/KernelsApi.v): the multiplicity does not
+   reach the kernel (C02: the state is unaffected by the multiplicity argument) *)
+From Sketchnu Require KernelsApi KernelTieApiHll.
+Theorem C02_api_source_tie :
+  (forall v u, KernelsApi.gen_api_hll_add_value v u = None) /\ KernelsApi.gen_api_hll_add_writes_back = false /\
+  (forall (s : hll) (k : key) (v w : Z), cls_add s k v = cls_add s k w).
+Proof. exact KernelTieApiHll.tie_api_hll. Qed.
+Print Assumptions C02_api_source_tie.
